@@ -318,7 +318,62 @@ VISIT = {"expr", "stmt"}
 def rule_f3(F):
     r = RuleResult("C03.F3", "code emitted into a conditionally or repeatedly executed block visits sub-expressions only inside a frame of its own", floor=2)
     regions = 0
-    for b in lowerer_bodies(F):
+    bodies = lowerer_bodies(F)
+    by_path = {b.path: b for b in bodies}
+    helpers_done = set()
+
+    def check_visit(b, bi, defs, dom_, din, pk, via=None):
+        t = b.blocks[bi]["term"]
+        d = din.get(bi, {0})
+        arg = t["args"][1] if len(t["args"]) > 1 else None
+        what = mir.origin_key(b, defs, arg[1]) if mir.is_place_op(arg) else "?"
+        pname = pk.get(what.split(".")[0], None)
+        fields = [x for x in what.split(".") if x and not x.startswith("call:") and not x.startswith("as:") and not x.isdigit() and not x.startswith("arg") and not x.startswith("local")]
+        label = pname or (fields[-1] if fields else "sub-expression")
+        key = "%s visit(%s)" % (hir.last(b.path), label)
+        r.inst(key + " #%d" % len(r.instances), {"fn": b.path, "line": t["line"], "visit": hir.last(mir.callee(t)), "of": label, "frame_depth_relative_to_entry": sorted(d),
+                                                  "called_after_new_block_in": via})
+        shared = None
+        if min(d) >= 1:
+            # the frame must be the visit's OWN: opened for it, nothing else registered in it before the visit (a frame that
+            # also holds pattern bindings is 'forgotten', not drained, on the path that enters the arm)
+            doms_ = sorted(dom_[bi], key=lambda x: -len(dom_[x]))  # nearest dominators first
+            pops_ = 0
+            own_push = None
+            for x in doms_:
+                if x == bi:
+                    continue
+                tx = b.blocks[x]["term"]
+                if tx["k"] != "call":
+                    continue
+                if is_frame_op(tx, "pop") or (mir.callee_def(tx) == "std::mem::take" and (tx["f"].get("gargs") or [None])[0] == FRAME_TY):
+                    pops_ += 1
+                elif is_frame_op(tx, "push"):
+                    if pops_ == 0:
+                        own_push = x
+                        break
+                    pops_ -= 1
+            if own_push is not None:
+                # blocks on a path from the push to this visit that does not run through the push (or the visit) again
+                fwd = mir.reachable_from(b, own_push, stop={bi}) - {own_push}
+                between = {x for x in fwd if bi in mir.reachable_from(b, x, stop={own_push})}
+                regs_ = [x for x in between if x != bi and b.blocks[x]["term"]["k"] == "call"
+                         and hir.last(mir.callee(b.blocks[x]["term"]) or "") in ("add_live_variable", "tmp", "assign_to_var")]
+                if regs_:
+                    shared = b.blocks[regs_[0]]["term"].get("line")
+        if shared is not None:
+            r.bad(b.path, "%s(%s) in a frame shared with other variables" % (hir.last(mir.callee(t)), label), relfile(b.file), t["line"],
+                  "`%s` is lowered into the frame that already holds other variables (registered at line %s) instead of a frame of its own: its temporaries are dropped - or forgotten - "
+                  "together with them, not when `%s` has been evaluated (a match guard that holds: the arm is entered with the guard's temporaries forgotten)" % (label, shared, label))
+        if min(d) < 1:
+            r.bad(b.path, "%s(%s) after new_block without own frame" % (hir.last(mir.callee(t)), label), relfile(b.file), t["line"],
+                  "`%s` is lowered into a block that runs conditionally or once per iteration, but its temporaries are registered in the enclosing frame: "
+                  "they are dropped on paths that never created them, or only once for many iterations (`while mk(i) != mk(n)`, a guarded match arm that is not taken)" % label)
+
+    def is_visit(t):
+        return t["k"] == "call" and hir.last(mir.callee(t)) in VISIT and (mir.callee(t) or "").startswith("mir::lower::")
+
+    for b in bodies:
         nbs = [bi for bi, t in mir.calls(b) if hir.last(mir.callee(t)) == "new_block"]
         if not nbs:
             continue
@@ -331,55 +386,36 @@ def rule_f3(F):
         pk = {v: k for k, v in param_keys(b).items()}
         for bi in sorted(after):
             t = b.blocks[bi]["term"]
-            if t["k"] != "call" or hir.last(mir.callee(t)) not in VISIT:
+            if is_visit(t):
+                regions += 1
+                check_visit(b, bi, defs, dom_, din, pk)
                 continue
-            if not mir.callee(t).startswith("mir::lower::"):
+            # a helper of the lowerer that is handed the sub-expression and visits it itself (`self.scoped_condition(r, &tmp)`): the
+            # helper's visits of what it was handed are visits in this conditionally executed block
+            w = by_path.get(mir.callee(t) or "") if t["k"] == "call" else None
+            if w is None or hir.last(w.path) in VISIT or w.path == b.path or w.path in helpers_done:
                 continue
-            regions += 1
-            d = din.get(bi, {0})
-            arg = t["args"][1] if len(t["args"]) > 1 else None
-            what = mir.origin_key(b, defs, arg[1]) if mir.is_place_op(arg) else "?"
-            pname = pk.get(what.split(".")[0], None)
-            fields = [x for x in what.split(".") if x and not x.startswith("call:") and not x.startswith("as:") and not x.isdigit() and not x.startswith("arg") and not x.startswith("local")]
-            label = pname or (fields[-1] if fields else "sub-expression")
-            key = "%s visit(%s)" % (hir.last(b.path), label)
-            r.inst(key + " #%d" % len(r.instances), {"fn": b.path, "line": t["line"], "visit": hir.last(mir.callee(t)), "of": label, "frame_depth_relative_to_entry": sorted(d)})
-            shared = None
-            if min(d) >= 1:
-                # the frame must be the visit's OWN: opened for it, nothing else registered in it before the visit (a frame that
-                # also holds pattern bindings is 'forgotten', not drained, on the path that enters the arm)
-                doms_ = sorted(dom_[bi], key=lambda x: -len(dom_[x]))  # nearest dominators first
-                pops_ = 0
-                own_push = None
-                for x in doms_:
-                    if x == bi:
-                        continue
-                    tx = b.blocks[x]["term"]
-                    if tx["k"] != "call":
-                        continue
-                    if is_frame_op(tx, "pop") or (mir.callee_def(tx) == "std::mem::take" and (tx["f"].get("gargs") or [None])[0] == FRAME_TY):
-                        pops_ += 1
-                    elif is_frame_op(tx, "push"):
-                        if pops_ == 0:
-                            own_push = x
-                            break
-                        pops_ -= 1
-                if own_push is not None:
-                    # blocks on a path from the push to this visit that does not run through the push (or the visit) again
-                    fwd = mir.reachable_from(b, own_push, stop={bi}) - {own_push}
-                    between = {x for x in fwd if bi in mir.reachable_from(b, x, stop={own_push})}
-                    regs_ = [x for x in between if x != bi and b.blocks[x]["term"]["k"] == "call"
-                             and hir.last(mir.callee(b.blocks[x]["term"]) or "") in ("add_live_variable", "tmp", "assign_to_var")]
-                    if regs_:
-                        shared = b.blocks[regs_[0]]["term"].get("line")
-            if shared is not None:
-                r.bad(b.path, "%s(%s) in a frame shared with other variables" % (hir.last(mir.callee(t)), label), relfile(b.file), t["line"],
-                      "`%s` is lowered into the frame that already holds other variables (registered at line %s) instead of a frame of its own: its temporaries are dropped - or forgotten - "
-                      "together with them, not when `%s` has been evaluated (a match guard that holds: the arm is entered with the guard's temporaries forgotten)" % (label, shared, label))
-            if min(d) < 1:
-                r.bad(b.path, "%s(%s) after new_block without own frame" % (hir.last(mir.callee(t)), label), relfile(b.file), t["line"],
-                      "`%s` is lowered into a block that runs conditionally or once per iteration, but its temporaries are registered in the enclosing frame: "
-                      "they are dropped on paths that never created them, or only once for many iterations (`while mk(i) != mk(n)`, a guarded match arm that is not taken)" % label)
+            if not any("ast::Expr" in str(l_.get("ty") or "") for l_ in w.mir["locals"][1:1 + w.mir.get("argc", 0)]):
+                continue
+            if any(hir.last(mir.callee(t2)) == "new_block" for _, t2 in mir.calls(w)):
+                continue    # it opens blocks of its own: examined as a body in its own right
+            wdefs = mir.Defs(w)
+            wpk = {v: k for k, v in param_keys(w).items()}
+            wvis = []
+            for wi, wt in mir.calls(w):
+                if not is_visit(wt) or len(wt["args"]) < 2 or not mir.is_place_op(wt["args"][1]):
+                    continue
+                if wpk.get(mir.origin_key(w, wdefs, wt["args"][1][1]).split(".")[0]) is None:
+                    continue
+                wvis.append(wi)
+            if not wvis:
+                continue
+            helpers_done.add(w.path)
+            wdom = mir.dominators(w)
+            wdin, _ = depth_analysis(w, frame_summaries(F))
+            for wi in wvis:
+                regions += 1
+                check_visit(w, wi, wdefs, wdom, wdin, wpk, via=hir.last(b.path))
     r.note("visits located after a new_block: %d" % regions)
     return r
 
